@@ -81,6 +81,11 @@ func CheckCall(sc *Scenario, v *CallView, rs RuleSet, em int) []Violation {
 			switch rd.Ret {
 			case RetNestedV, RetLoop, RetElse:
 				returned, val = x.RetTrue, int64(x.Ver)*1000+int64(x.Rule)
+			case RetReq:
+				returned = x.RetTrue
+				if c.Req != nil {
+					val = c.Req.ID
+				}
 			case RetNestedB:
 				returned = x.RetTrue
 			case RetKind:
